@@ -529,6 +529,26 @@ Proof.
   specialize (IH Ec). pose proof (wl_nonempty _ _ _ _ Hw) as Hne. destruct us as [|u r]; [congruence|]. exact IH.
 Qed.
 
+Lemma esc_head_ok X : match X with c :: _ => c <> LF | [] => True end -> match esc_text X with c :: _ => c <> LF | [] => True end.
+Proof.
+  destruct X as [|c r]; [intros _; exact I|]. intros Hc. change (esc_text (c :: r)) with (cce_lookup pp_cce_text c ++ esc_text r).
+  pose proof (esc_head_not_lf c Hc) as H. destruct (cce_lookup pp_cce_text c); [destruct H|exact H].
+Qed.
+
+Lemma lstrip_app_ne x y : lstrip x <> [] -> lstrip (x ++ y) = lstrip x ++ y.
+Proof.
+  induction x as [|c r IH]; [cbn; congruence|]. cbn [app lstrip]. destruct (is_ws c); [exact IH|reflexivity].
+Qed.
+Lemma rstrip_cons_nows c y : head_nows y -> rstrip (c :: y) = c :: rstrip y /\ rstrip y <> [].
+Proof.
+  intros Hh. destruct (head_nows_rstrip y Hh) as [Hne _]. split; [|exact Hne].
+  unfold rstrip in *. cbn [rev]. rewrite lstrip_app_ne.
+  - rewrite rev_app_distr. reflexivity.
+  - intros E. apply Hne. rewrite E. reflexivity.
+Qed.
+Lemma skipn_app_len {A} (a b : list A) n : skipn (length a + n) (a ++ b) = skipn n b.
+Proof. induction a as [|x r IH]; [reflexivity|]. cbn [length Nat.add app skipn]. exact IH. Qed.
+
 Section TextStep.
   Variable ind : str.
   Variable width : Z.
@@ -1263,6 +1283,44 @@ Section TextStep.
         lia.
     Qed.
 
+    Definition hx (x0 : str) (us' : list str) : Prop :=
+      (x0 = [] /\ us' <> []) \/ (x0 <> [] /\ head_ok x0 /\ rstrip x0 <> [] /\ head_ok (rstrip x0)).
+
+    Lemma hx_head_nows u r : head_nows u -> hx u r.
+    Proof.
+      intros Hu. right. destruct (head_nows_ok u Hu) as [H1 H2]. destruct (head_nows_rstrip u Hu) as [H3 H4].
+      split; [exact H1|]. split; [exact H2|]. split; [exact H3|]. exact (proj2 (head_nows_ok _ H4)).
+    Qed.
+    Lemma hx_sp y r : head_nows y -> hx (SP :: y) r.
+    Proof.
+      intros Hy. right. destruct (rstrip_cons_nows SP y Hy) as [E Hne]. split; [discriminate|]. split; [discriminate|].
+      rewrite E. split; discriminate.
+    Qed.
+
+    (* the lines cut from the text with its leading space (the branch that gives up the filling) *)
+    Lemma lead_shape us c : wl (Z.to_nat width) (optsp lead ++ t) us c ->
+      exists x0 us', us = x0 :: us' /\ Forall head_nows us' /\ hx x0 us'.
+    Proof.
+      intros Hwl. destruct (text_tail_naw k trail Hk) as (Hn & Hh & Hne).
+      destruct lead; cbn [optsp app] in Hwl.
+      - inversion Hwl as [t' Ht' Et Eu | ta Hl Et Eu | ta tb us' c' Htb Hw' Et Eu]; subst.
+        + exists (SP :: t), []. split; [reflexivity|]. split; [constructor|apply hx_sp; exact Hh].
+        + destruct ta as [|c0 ta']; [cbn in Et; injection Et as Et; rewrite <- Et in Hne; congruence|].
+          cbn [app] in Et. injection Et as -> Et.
+          exists (SP :: ta'), []. split; [reflexivity|]. split; [constructor|apply hx_sp].
+          rewrite <- Et in Hh. destruct ta'; [cbn in Hh; rewrite is_ws_SP in Hh; discriminate|exact Hh].
+        + destruct ta as [|c0 ta']; cbn [app] in Et.
+          * injection Et as Et. subst tb. exists [], us'. split; [reflexivity|].
+            split; [exact (wl_segs_ok _ _ _ _ Hw' Hn Hh)|left; split; [reflexivity|exact (wl_nonempty _ _ _ _ Hw')]].
+          * injection Et as -> Et. rewrite <- Et in Hn, Hh.
+            destruct (naw_split ta' tb false Hn) as (_ & Hb & Hc).
+            exists (SP :: ta'), us'. split; [reflexivity|]. split.
+            -- apply (wl_segs_ok _ _ _ _ Hw' Hc). destruct tb; [congruence|exact Hb].
+            -- apply hx_sp. destruct ta'; [cbn in Hh; rewrite is_ws_SP in Hh; discriminate|exact Hh].
+      - pose proof (wl_segs_ok _ _ _ _ Hwl Hn Hh) as HF. destruct us as [|u r]; [exfalso; exact (wl_nonempty _ _ _ _ Hwl eq_refl)|].
+        inversion HF; subst. exists u, r. split; [reflexivity|]. split; [assumption|apply hx_head_nows; assumption].
+    Qed.
+
     Lemma t_no_lf : ~ In LF t.
     Proof. intros Hi. apply s_no_lf. apply in_or_app. right. exact Hi. Qed.
 
@@ -1288,12 +1346,124 @@ Section TextStep.
       rewrite Efill.
       destruct (text_tail_naw k trail Hk) as (Hn & Hh & Hne).
       destruct (first_line_any t wz Hne Hh Hn) as (f & rem & Ehd & Hf & Hfh & Et & Hrem).
-      unfold wrap_lines at 1 2 3. rewrite Ehd.
+      assert (Ehd' : hd [] (wrap_lines (esc_text t) wz) = esc_text f) by exact Ehd. rewrite !Ehd'.
       set (X := optsp lead ++ f).
       assert (EX : optsp lead ++ esc_text f = esc_text X) by (unfold X; rewrite esc_text_app, esc_optsp; reflexivity).
       rewrite EX.
-      admit.
-    Admitted.
+      assert (Ee : optsp lead ++ K ++ optsp trail = esc_text (optsp lead ++ t)) by (rewrite esc_text_app, esc_optsp, esc_t; reflexivity).
+      destruct ((elen (esc_text X) >? avail)%Z && legit_before prev (Text s))%bool eqn:Ed.
+      - (* the filling is given up: newline first *)
+        apply andb_prop in Ed as [_ Hlb]. rewrite Ee.
+        assert (Hnett : optsp lead ++ t <> []) by (destruct lead; [discriminate|exact Hne]).
+        destruct (wrap_lines_wl (optsp lead ++ t) width width_pos Hnett) as (us & c & Ew & Hwl).
+        unfold wrap_lines. rewrite Ew.
+        destruct (lead_shape us c Hwl) as (x0 & us' & -> & HF & Hx).
+        destruct (lines_after (optsp lead ++ t) x0 us' c [] st Hwl
+                    ltac:(intros Hi; apply s_no_lf; rewrite app_assoc in Hi; rewrite app_assoc; exact Hi) HF Hx Hpos)
+          as (cs2 & D2 & T & E1 & Hs & Hc & HT & Hn2 & Hz & How).
+        destruct (join_form (optsp lead) (x0 :: us') c ltac:(destruct lead; auto) Hwl) as (tr0 & Ht1 & Ht2 & Ht3 & Hjf).
+        destruct (finish_e L is_last la next_sib [] st ([[]] ++ map esc_text (x0 :: us'))) as [cs st'] eqn:Efin. cbn [fst snd app] in *. subst cs.
+        apply (post_pack st' cs2 D2 true (T || tr0)%bool Hs).
+        + unfold collapse. pose proof (Hc false []) as Ec. rewrite !app_nil_r in Ec. rewrite Ec.
+          fold (collapse (NL ++ (if null x0 then [] else indent ind L) ++ py_join sep (x0 :: us') ++ (if T then NL else []))).
+          replace (NL ++ (if null x0 then [] else indent ind L) ++ py_join sep (x0 :: us') ++ (if T then NL else []))
+            with ((NL ++ (if null x0 then [] else indent ind L)) ++ py_join sep (x0 :: us') ++ (if T then NL else [])) by (rewrite <- app_assoc; reflexivity).
+          rewrite Hjf; [|apply all_ws_app; [apply all_ws_NL|destruct (null x0); [constructor|apply all_ws_indent; exact ind_ws]]|destruct T; [apply all_ws_NL|constructor]].
+          f_equal. f_equal. destruct T, tr0; reflexivity.
+        + reflexivity.
+        + intros Hpn Hl. rewrite (lb_lead Hpn) in Hlb. congruence.
+        + intros Hb. apply orb_prop in Hb as [Hb|Hb]; [exact (HT Hb)|apply la_trail; exact (Ht1 Hb)].
+        + intros Htr. destruct T; [left; reflexivity|]. destruct tr0; [left; reflexivity|right]. apply How; [reflexivity|].
+          destruct c; [reflexivity|]. rewrite (Ht2 eq_refl) in *. congruence.
+        + exact Hn2.
+        + intros H0'. rewrite (Hz H0'). reflexivity.
+      - (* the filling is written *)
+        clear Ed.
+        assert (HXne : X <> []) by (unfold X; destruct lead; [discriminate|exact Hf]).
+        assert (HXh : match X with c :: _ => c <> LF | [] => True end).
+        { unfold X. destruct lead; cbn [optsp app]; [discriminate|]. exact (proj2 (head_nows_ok f Hfh)). }
+        assert (HXs : optsp lead ++ t = X ++ rem) by (unfold X; rewrite Et, <- app_assoc; reflexivity).
+        assert (HXnolf : ~ In LF (esc_text X)).
+        { apply esc_no_lf. intros Hi. apply s_no_lf. change s with (optsp lead ++ t). rewrite HXs. apply in_or_app. left. exact Hi. }
+        assert (HeX : esc_text X <> []) by (intros E; apply esc_text_nil in E; congruence).
+        destruct (emit_esc st X) as (X' & Ee1 & Hs1 & HX' & _).
+        assert (X' = X) as -> by (destruct HX' as [->|[H00 _]]; [reflexivity|congruence]).
+        pose proof (emit_off_exact st (esc_text X) HeX (esc_head_ok X HXh) HXnolf) as Eoff.
+        pose proof (emit_raw_snd st (esc_text X)) as Esnd.
+        destruct (emit_raw st (esc_text X)) as [c0 st1]. cbn [fst snd] in *. subst c0. rewrite <- Esnd in Eoff. clear Esnd.
+        assert (Hpos1 : (0 < w_off st1)%Z) by (pose proof (elen_nonneg' (esc_text X)); lia).
+        replace (optsp lead ++ K ++ optsp trail) with (esc_text X ++ esc_text rem) by (rewrite Ee, HXs, esc_text_app; reflexivity).
+        assert (Eslice : py_slice_from (esc_text X ++ esc_text rem) (elen (esc_text X) + 1) = skipn 1 (esc_text rem)).
+        { unfold py_slice_from, elen, py_len. replace (Z.to_nat (Z.of_nat (length (esc_text X)) + 1)) with (length (esc_text X) + 1)%nat by lia.
+          apply skipn_app_len. }
+        rewrite !Eslice.
+        destruct Hrem as [->|(tb & -> & Hcons & Htb)].
+        + (* the whole text was the filling *)
+          cbn [esc_text translate flat_map skipn null fst snd].
+          rewrite app_nil_r in HXs.
+          apply (post_pack st1 [KRaw (esc_text X)] X lead trail Hs1).
+          * rewrite <- HXs. exact (collapse_nf lead k trail Hk).
+          * auto.
+          * intros _ Hl. exact Hl.
+          * intros Hb. apply la_trail. exact Hb.
+          * intros Htr. left. exact Htr.
+          * lia.
+          * intros Hz. lia.
+        + change (esc_text (SP :: tb)) with ([SP] ++ esc_text tb). cbn [app skipn]. rewrite null_esc.
+          destruct tb as [|c1 tb'].
+          * (* the break consumed the trailing space: the line is full *)
+            cbn [null fst snd]. specialize (Hcons eq_refl).
+            assert (Etk : trail = true /\ f = k).
+            { destruct trail; cbn [optsp] in Et; [apply app_inj_tail in Et as [Et _]; auto|].
+              exfalso. rewrite app_nil_r in Et. pose proof (proj1 (proj2 Hk)) as Hl. rewrite Et in Hl.
+              unfold last_nows in Hl. rewrite rev_app_distr in Hl. cbn in Hl. rewrite is_ws_SP in Hl. discriminate. }
+            destruct Etk as [Etr ->].
+            apply (post_pack st1 [KRaw (esc_text X)] X lead false Hs1).
+            -- unfold X. rewrite <- (app_nil_r k) at 1. change (@nil char) with (optsp false). exact (collapse_nf lead k false Hk).
+            -- auto.
+            -- intros _ Hl. exact Hl.
+            -- discriminate.
+            -- intros _. right. unfold owed. split; [lia|].
+               assert (Hav : (avail <= elen (esc_text X))%Z).
+               { unfold X. rewrite esc_text_app, esc_optsp. unfold elen, py_len. rewrite app_length, Nat2Z.inj_add.
+                 unfold wz, elen, py_len in Hcons. destruct lead; cbn [optsp length] in *; lia. }
+               unfold avail, available, line_offset in *. replace (w_off st =? 0)%Z with false in Hav by (symmetry; apply Z.eqb_neq; lia).
+               replace (w_off st1 =? 0)%Z with false by (symmetry; apply Z.eqb_neq; lia). lia.
+            -- lia.
+            -- intros Hz. lia.
+          * (* further lines follow the filling *)
+            cbn [null].
+            destruct (Htb ltac:(discriminate)) as [Htbh Htbn].
+            destruct (wrap_lines_wl (c1 :: tb') width width_pos ltac:(discriminate)) as (us2 & c2 & Ew & Hwl2).
+            unfold wrap_lines. rewrite Ew.
+            pose proof (wl_segs_ok _ _ _ _ Hwl2 Htbn Htbh) as HF2.
+            destruct us2 as [|u r]; [exfalso; exact (wl_nonempty _ _ _ _ Hwl2 eq_refl)|].
+            inversion HF2 as [|? ? Hu HFr]; subst.
+            destruct (lines_after (c1 :: tb') u r c2 [KRaw (esc_text X)] st1 Hwl2
+                        ltac:(intros Hi; apply t_no_lf; rewrite Et; apply in_or_app; right; right; exact Hi) HFr (hx_head_nows u r Hu) Hpos1)
+              as (cs2 & D2 & T & E1 & Hs2 & Hc & HT & Hn2 & Hz & How).
+            assert (Hwlc : wl (Z.to_nat width) ([] ++ t) (f :: u :: r) c2) by (cbn [app]; rewrite Et; apply wl_step; [discriminate|exact Hwl2]).
+            destruct (join_form [] (f :: u :: r) c2 (or_introl eq_refl) Hwlc) as (tr0 & Ht1 & Ht2 & Ht3 & Hjf).
+            change ([[]] ++ map esc_text (u :: r)) with ([] :: map esc_text (u :: r)) in *.
+            destruct (finish_e L is_last la next_sib [KRaw (esc_text X)] st1 ([] :: map esc_text (u :: r))) as [cs st'] eqn:Efin.
+            cbn [fst snd] in *. subst cs.
+            apply (post_pack st' ([KRaw (esc_text X)] ++ cs2) (X ++ D2) lead (T || tr0)%bool (sees_app _ _ _ _ Hs1 Hs2)).
+            -- unfold collapse. rewrite collapse_aux_app. pose proof (Hc (endws false X) []) as Ec. rewrite !app_nil_r in Ec. rewrite Ec.
+               rewrite <- collapse_aux_app. fold (collapse (X ++ NL ++ (if null u then [] else indent ind L) ++ py_join sep (u :: r) ++ (if T then NL else []))).
+               replace (null u) with false by (destruct u; [destruct (head_nows_ok _ Hu); congruence|reflexivity]).
+               replace (X ++ NL ++ indent ind L ++ py_join sep (u :: r) ++ (if T then NL else []))
+                 with (optsp lead ++ py_join sep (f :: u :: r) ++ (if T then NL else [])).
+               2:{ unfold X. rewrite join_cons2. rewrite <- !app_assoc. reflexivity. }
+               rewrite Hjf; [|apply all_ws_optsp|destruct T; [apply all_ws_NL|constructor]].
+               rewrite app_nil_r. f_equal; [destruct lead; reflexivity|]. f_equal. destruct T, tr0; reflexivity.
+            -- auto.
+            -- intros _ Hl. exact Hl.
+            -- intros Hb. apply orb_prop in Hb as [Hb|Hb]; [exact (HT Hb)|apply la_trail; exact (Ht1 Hb)].
+            -- intros Htr. destruct T; [left; reflexivity|]. destruct tr0; [left; reflexivity|right]. apply How; [reflexivity|].
+               destruct c2; [reflexivity|]. rewrite (Ht2 eq_refl) in *. congruence.
+            -- exact Hn2.
+            -- intros H0'. rewrite (Hz H0'). reflexivity.
+    Qed.
 
     (* _serialize_text as a whole, given the partial-line branch of _serialize_text_over_lines *)
     Variable foll : option rpath.
